@@ -101,6 +101,7 @@ EmptyContent(solver) ==
    func |-> [g \in GeneU |-> TRUE], member |-> [g \in GrpU |-> {}],
    ann |-> [x \in AllIds |-> 0], note |-> [x \in AllIds |-> 0], xcols |-> {}, xrows |-> {}, solver |-> solver]
 NoModel == [none |-> TRUE]
+NoDet == [present |-> FALSE, st |-> [m \in {} |-> 0], lb |-> 0, ub |-> 0, rule |-> [k |-> "none", id |-> "", ch |-> <<>>]]
 IsModel(c) == "rxns" \in DOMAIN c
 
 MetsOfRxn(C, r) == {m \in MetU : C.S[r][m] # 0}
@@ -411,7 +412,14 @@ ArithResult(C, kind, r, q, k) ==
 \* ------------------------------------------------------------------ whole-state dispatcher
 \* St = [m |-> [s \in Slots |-> C or NoModel], ctx |-> [s \in Slots |-> Seq(C)]]
 SRes(St, raises, atomic, ret) == [st |-> St, raises |-> raises, atomic |-> atomic, ret |-> ret]
-Lift(St, s, r) == SRes([St EXCEPT !.m[s] = r.c], r.raises, r.atomic, r.ret)
+\* reactions that leave the model during a step are remembered as detached objects (with their attributes of
+\* the moment before the step)
+Departed(St, s, C2) ==
+  [r \in RxU |-> IF IsModel(St.m[s]) /\ r \in St.m[s].rxns /\ r \notin C2.rxns
+                 THEN [present |-> TRUE, st |-> St.m[s].S[r], lb |-> St.m[s].lb[r], ub |-> St.m[s].ub[r],
+                       rule |-> St.m[s].rule[r]]
+                 ELSE St.det[s][r]]
+Lift(St, s, r) == SRes([St EXCEPT !.m[s] = r.c, !.det[s] = Departed(St, s, r.c)], r.raises, r.atomic, r.ret)
 Skip(St) == SRes(St, "skip", FALSE, NoRet)
 
 ContentOp(op, C) ==
@@ -504,24 +512,39 @@ Apply(op, St) ==
      ELSE LET n == Len(St.ctx[s]) snap == St.ctx[s][n] IN
           SRes([St EXCEPT !.m[s] = (IF Bug = "exit_keeps_bounds" THEN [snap EXCEPT !.lb = St.m[s].lb] ELSE snap),
                           !.ctx[s] = SubSeq(@, 1, n - 1),
+                          !.det[s] = Departed(St, s, snap),
                           !.helper[s] = IF @ > n - 1 THEN 0 ELSE @], "none", TRUE, NoRet)
   ELSE IF op.a = "Copy" THEN      \* slot op.s -> slot op.t by copy() / deepcopy / pickle
      IF ~IsModel(St.m[s]) \/ op.t = s \/ St.helper[s] # 0 THEN Skip(St)
-     ELSE SRes([St EXCEPT !.m[op.t] = St.m[s], !.ctx[op.t] = <<>>, !.helper[op.t] = 0, !.sw[op.t] = St.sw[s], !.taint[op.t] = FALSE],
+     ELSE SRes([St EXCEPT !.m[op.t] = St.m[s], !.ctx[op.t] = <<>>, !.helper[op.t] = 0, !.sw[op.t] = St.sw[s], !.taint[op.t] = FALSE,
+                          !.det[op.t] = [r \in RxU |-> NoDet]],
                "none", TRUE, NoRet)
   ELSE IF op.a = "NewModel" THEN
-     SRes([St EXCEPT !.m[s] = EmptyContent(op.solver), !.ctx[s] = <<>>, !.helper[s] = 0, !.sw[s] = FALSE, !.taint[s] = FALSE],
+     SRes([St EXCEPT !.m[s] = EmptyContent(op.solver), !.ctx[s] = <<>>, !.helper[s] = 0, !.sw[s] = FALSE, !.taint[s] = FALSE,
+                     !.det[s] = [r \in RxU |-> NoDet]],
           "none", TRUE, NoRet)
   ELSE IF op.a = "LoadDoc" THEN        \* ... import later, into slot op.s (whatever happened in between)
      IF "fmt" \notin DOMAIN St.doc \/ (IsModel(St.m[s]) /\ Len(St.ctx[s]) > 0) THEN Skip(St)
      ELSE LET r == A_RoundTrip(St.doc.c, St.doc.fmt) IN
-          SRes([St EXCEPT !.m[s] = r.c, !.ctx[s] = <<>>, !.helper[s] = 0, !.sw[s] = FALSE, !.taint[s] = FALSE],
+          SRes([St EXCEPT !.m[s] = r.c, !.ctx[s] = <<>>, !.helper[s] = 0, !.sw[s] = FALSE, !.taint[s] = FALSE,
+                          !.det[s] = [x \in RxU |-> NoDet]],
                "none", TRUE, NoRet)
   ELSE IF ~IsModel(St.m[s]) THEN Skip(St)
   ELSE IF op.a = "RoundTrip" /\ Len(St.ctx[s]) > 0 THEN Skip(St)      \* the loaded model replaces the object
   ELSE IF op.a = "SaveDoc" THEN        \* export now ...
      IF ~IsModel(St.m[s]) \/ St.helper[s] # 0 THEN Skip(St)
      ELSE SRes([St EXCEPT !.doc = [c |-> St.m[s], fmt |-> op.fmt]], "none", TRUE, NoRet)
+  \* (r (+|-|*) q of slot s) renamed to op.new and added to the model of slot op.t: the detached result must not
+  \* tie the two models together
+  ELSE IF op.a = "AddArith" THEN
+     IF ~IsModel(St.m[s]) \/ ~IsModel(St.m[op.t]) \/ op.r \notin St.m[s].rxns \/ op.q \notin St.m[s].rxns
+        \/ op.new \in St.m[op.t].rxns \/ St.helper[op.t] # 0
+     THEN Skip(St)
+     ELSE LET e == ArithResult(St.m[s], op.kind, op.r, op.q, op.k)
+              T1 == AddRxns(St.m[op.t], <<[id |-> op.new, st |-> e.S, lb |-> e.lb, ub |-> e.ub, rule |-> e.rule]>>)
+          IN \* the result is a copy of r: it carries r's annotation, notes and SBO term
+          Lift(St, op.t, Ok([T1 EXCEPT !.ann[op.new] = St.m[s].ann[op.r], !.note[op.new] = St.m[s].note[op.r],
+                                       !.sbo[op.new] = St.m[s].sbo[op.r]]))
   ELSE IF op.a = "Merge" THEN
      IF ~IsModel(St.m[op.t]) \/ op.t = s \/ St.helper[s] # 0 \/ St.helper[op.t] # 0 THEN Skip(St)
      ELSE Lift(St, s, A_Merge(St.m[s], St.m[op.t]))
@@ -529,6 +552,17 @@ Apply(op, St) ==
   \* making (the rename is not reversible): out of scope
   ELSE IF op.a = "RenameReaction" /\ (\E k \in 1..Len(St.ctx[s]) : op.new \in St.ctx[s][k].rxns) THEN Skip(St)
   ELSE IF op.a = "RenameMetabolite" /\ (\E k \in 1..Len(St.ctx[s]) : op.new \in St.ctx[s][k].mets) THEN Skip(St)
+  ELSE IF op.a = "RoundTrip" THEN
+       LET r == Lift(St, s, ContentOp(op, St.m[s])) IN
+       SRes([r.st EXCEPT !.det[s] = [x \in RxU |-> NoDet]], r.raises, r.atomic, r.ret)
+  \* model.add_reactions([the detached object]): the reaction comes back as the object now is
+  ELSE IF op.a = "ReAddDetached" THEN
+       IF ~St.det[s][op.r].present \/ op.r \in St.m[s].rxns THEN Skip(St)
+       ELSE LET d == St.det[s][op.r] IN
+            Lift(St, s, Ok(AddRxns(St.m[s], <<[id |-> op.r, st |-> d.st, lb |-> d.lb, ub |-> d.ub, rule |-> d.rule]>>)))
+  ELSE IF op.a = "DetachedSetBounds" /\ St.det[s][op.r].present /\ op.r \notin St.m[s].rxns /\ op.lo <= op.hi THEN
+       LET r == IF Len(St.ctx[s]) > 0 THEN Lift([St EXCEPT !.taint[s] = TRUE], s, Ok(St.m[s])) ELSE Lift(St, s, Ok(St.m[s])) IN
+       SRes([r.st EXCEPT !.det[s][op.r].lb = op.lo, !.det[s][op.r].ub = op.hi], "none", TRUE, NoRet)
   ELSE IF op.a \in NotContextAware /\ Len(St.ctx[s]) > 0
        THEN Lift([St EXCEPT !.taint[s] = TRUE], s, ContentOp(op, St.m[s]))
   ELSE IF op.a = "SwitchSolver" /\ Len(St.ctx[s]) > 0 /\ op.solver # St.m[s].solver
@@ -544,7 +578,10 @@ InitState == [m |-> [s \in Slots |-> NoModel], ctx |-> [s \in Slots |-> <<>>], h
               \* that time are not judged against their snapshots
               taint |-> [s \in Slots |-> FALSE],
               \* doc: a document saved earlier (SaveDoc) and not loaded yet: the content it was saved from + format
-              doc |-> NoModel]
+              doc |-> NoModel,
+              \* det[s][r]: the Reaction OBJECT with id r that left the model object of slot s most recently, as it
+              \* is now (a detached object keeps its stoichiometry, bounds and rule and can be edited and re-added)
+              det |-> [s \in Slots |-> [r \in RxU |-> NoDet]]]
 
 \* ------------------------------------------------------------------ invariants on a content / state
 \* C02: cross references, derived declaratively from the content
